@@ -3,6 +3,7 @@ import I18n.Lemmas.PoFlags
 import I18n.Lemmas.PoPre
 import I18n.Lemmas.PoComments
 import I18n.Lemmas.PoFile
+import I18n.Lemmas.PoDetect
 /-! # C10 — PO text decodes to exactly the strings gettext would see
 
 Model: `I18n.Po` (Model/Po.lean) — `polib.pofile` after `lib.polib4us.install_patches()`.
@@ -215,6 +216,23 @@ theorem detect_first_match_refuted :
         fun c => UInt8.ofNat c.toNat) = ("KOI8-R".toList.map fun c => UInt8.ofNat c.toNat) := by
   decide
 
+/-- "any supported charset declared on one physical line of the header": if the first physical line of the file that matches
+    polib's pattern is `"Content-Type: text/plain; charset=NAME…` (NAME a non-empty run of `[\\w\\-:.]`, followed by a byte that
+    cannot continue it, e.g. the backslash of `\\n"`) and NAME is a codec Python knows, the file is read in NAME.  The condition on
+    the earlier lines is exactly what `detect_first_match_refuted` shows cannot be dropped. -/
+theorem detect_header (env : Env) (file : Bytes) (pre post : List Bytes) (name rest : Bytes)
+    (hlines : byteLines file = pre ++ (Lemmas.PoDetect.headerPrefix ++ (name ++ rest)) :: post)
+    (hpre : ∀ l ∈ pre, detectLine l = none) (hne : name ≠ []) (hn : ∀ b ∈ name, isCharsetByte b = true)
+    (hr : ∀ b r, rest = b :: r → isCharsetByte b = false) (hex : env.codecExists name = true) :
+    detectEncoding env file = name :=
+  Lemmas.PoDetect.detect_header env file pre post name rest hlines hpre hne hn hr hex
+
+/-- a file that is the encoding of its text decodes to that text (the `hfile` hypothesis of the theorems below, from `CodecOk`) -/
+theorem decode_file_of_codec (E : Codec) (env : Env) (enc : Bytes) (hE : CodecOk env enc E) (hc : env.asciiCompatible enc = true)
+    (pairs : List (Char × Bytes)) (hp : ∀ p ∈ pairs, E.encode p.1 = some p.2) :
+    decodeFile env enc (pairs.map (·.2)).flatten = .ok (pairs.map (·.1)) := by
+  simp [decodeFile, hc, hE.decode pairs hp]
+
 /-- the layers composed: if the file decodes to `contents`, its physical lines are `body ++ tail` where `Codecs.open` holds back
     every line of `tail` but not the last line of `body`, and `body`, once atypical comments are normalised, is a spelling
     `cat` — then `polib.pofile(path, encoding=enc)` yields the catalog.  (That a given file meets the three side conditions is
@@ -256,6 +274,25 @@ theorem load_spells_file_partial (E : Codec) (env : Env) (hsp : env.isSpace = py
     rw [hl', Lemmas.PoFile.not_held_msg env hsp l' hmsg]
     simp
   exact load_file_partial E env hsp hdig hdec enc hE cat hv file contents hfile b l tail (by simpa using hlines) hl ht hb
+
+/-- **load_spells** (as far as it is true): `polib.pofile(path)` itself — charset detection, decode, `Codecs.open`, line loop —
+    yields the catalog for every spelled catalog whose file declares its charset on the first line matching polib's pattern.
+    Remaining hypotheses are about the file's bytes and lines only (see `load_spells_file_partial`, `detect_header`).
+    `partial` because of the two refuted corners (`load_spells_refuted`, `detect_first_match_refuted`) and the stated exclusions. -/
+theorem load_spells_detected_partial (E : Codec) (env : Env) (hsp : env.isSpace = pyIsSpace) (hdig : env.isDigit = pyIsDigit)
+    (hdec : env.decimal = pyDecimal) (cat : CatalogSp) (file : Bytes) (name : Bytes) (hE : CodecOk env name E) (hv : cat.Valid E)
+    (pre post : List Bytes) (rest : Bytes)
+    (hbl : byteLines file = pre ++ (Lemmas.PoDetect.headerPrefix ++ (name ++ rest)) :: post)
+    (hpre : ∀ l ∈ pre, detectLine l = none) (hne : name ≠ []) (hn : ∀ b ∈ name, isCharsetByte b = true)
+    (hr : ∀ b r, rest = b :: r → isCharsetByte b = false) (hex : env.codecExists name = true)
+    (contents : Text) (hfile : decodeFile env name file = .ok contents)
+    (body tail : List Text) (hlines : physLines contents = body ++ tail)
+    (hb : body.map normalise = cat.lines) (ht : ∀ x ∈ tail, Lemmas.PoPre.Held env x) :
+    ∃ f, load env file = .ok f ∧ f.header = cat.headerText ∧
+      f.entries.map Lemmas.PoCatalog.content = cat.entries.map EntrySp.entry := by
+  unfold load
+  rw [detect_header env file pre post name rest hbl hpre hne hn hr hex]
+  exact load_spells_file_partial E env hsp hdig hdec name hE cat hv file contents hfile body tail hlines hb ht
 
 /-- the trailing lines a file may have after its last message line without losing it (fix ed9c45c for the comment forms):
     every noise line, and every translator comment starting in the first column, is held back by `Codecs.open` -/
